@@ -342,8 +342,16 @@ def run_harness(binary, lines, per_case_timeout=20.0, env=None, args=()):
     e.update(ASAN_ENV)
     if env:
         e.update(env)
+    # (callers whose cases are known to be tiny may set VH_CASE_TIMEOUT in env: the harness then kills itself inside a
+    # case that exceeds it - vh.h - and the hang is detected without waiting for the whole chunk's budget)
     lines = list(lines)
+    # a change that breaks progress makes MANY cases hang, each costing a full time budget: after a few hangs in one
+    # call the remaining lines are left unexecuted (the hangs themselves are reported; missing results are not judged)
+    max_hangs = int(os.environ.get("VERIF_MAX_HANGS", "4"))
+    nhang = 0
     while idx < len(lines):
+        if nhang >= max_hangs:
+            break
         chunk = lines[idx:]
         errf = tempfile.TemporaryFile(mode="w+")
         p = subprocess.Popen([binary] + list(args), stdin=subprocess.PIPE, stdout=subprocess.PIPE,
@@ -382,7 +390,11 @@ def run_harness(binary, lines, per_case_timeout=20.0, env=None, args=()):
                 raise InfraError("harness %s failed outside any case rc=%s\n%s" % (binary, p.returncode, err[-2000:]))
             idx += done
             continue
+        if p.returncode == -14:          # SIGALRM: the harness's own per-case watchdog
+            hung = True
         kind, frame = ("hang", "?") if hung else asan_signature(err)
+        if hung:
+            nhang += 1
         f = Fault(current, kind, frame)
         f.stderr = err[-6000:]
         faults.append(f)
